@@ -105,21 +105,22 @@ checks.update({
 })
 # families added in session 3 (appended to the claims above)
 ADD = {
- "C01": "Session 3: one host per (tool, game) pair truth supports (reduced program set), EoSD two-part compares under difficulty labels, raw spellings of every built-in intrinsic with every register/literal operand choice, ANM files whose entries share a path; three recorded known findings.",
+ "C01": "Session 3: one host per (tool, game) pair truth supports (reduced program set), EoSD two-part compares under difficulty labels, raw spellings of every built-in intrinsic with every register/literal operand choice, ANM files whose entries share a path; three recorded known findings. Wide instructions (8 and 9 operands, eight register/literal patterns incl. a mask of exactly 0xFF) with and without their signatures.",
  "C02": "Clock comparison is suspended only from the first jump taken after an off-label timed jump (AstVm artefact); a negated float comparison with a NaN operand is a recorded known finding.",
  "C03": "Session 3: D=2 field pairs in the quick tier (full boundary sets in thorough); a CLI family compares the bytes the real command line leaves on disk over fresh / occupied output paths with the in-memory bytes; '@' runtime-texture paths with and without image data.",
  "C04": "Session 3: byte-level edits and section-header enumeration of mapfiles, builtin-enum redefinitions, a TH10 ECL template, and every seed of a tool compiled for every game of that tool (+ token deletions).",
  "C05": "Session 3: per-game register facts for all 24 register-language games (general-purpose lists by type, exhaustion at |GP|+1 live locals, the scratch-forbidding opcode in 7 layouts with its documented scope).",
  "C06": "Session 3: user gotos out of any nesting to an end label and && conditions.",
- "C07": "Session 3: loop-shaped jump graphs (2-3 backward conditional jumps + 1-2 forward jumps, full product).",
+ "C07": "Session 3: loop-shaped jump graphs (2-3 backward conditional jumps + 1-2 forward jumps, full product). Loop-shaped graphs over stored times that rise and then drop (absolute time labels in the decompiled text): both texts are lowered again and M1 runs them against the original stream.",
  "C09": "Session 3: declared parameter types through the real TH07/TH08 ECL pipelines (every parameter list <= 3 over int/float x named/unnamed, 6 typed uses, every call of arity n-1..n+1).",
- "C10": "Session 3: file-level names (sprites, scripts, consts, subs, MSG scripts) spelled like register aliases, instruction aliases, enum consts and builtin consts, each compared with its fresh renaming.",
+ "C10": "Session 3: file-level names (sprites, scripts, consts, subs, MSG scripts) spelled like register aliases, instruction aliases, enum consts and builtin consts, each compared with its fresh renaming. A function body is an inner scope of its parameter list (body-level locals and consts shadow a parameter).",
  "C11": "Session 3: NaN among the float operands.",
- "C13": "Session 3: nested function definitions and const items between the labelled statements.",
+ "C13": "Session 3: nested function definitions and const items between the labelled statements. The real-format family covers old-ECL timeline scripts and continues bytes -> decompile -> recompile -> stored times (M2).",
  "C14": "Session 3: nested labelled blocks (12 outer x 9 inner labels incl. three spellings of the full mask, 1-3 levels).",
  "C15": "Session 3: the {zero, non-zero}^3 grid of (mask, velocity, acceleration).",
  "C16": "Session 3: one compiled seed for every (tool, game) pair.",
  "C18": "Session 3: ANM scripts with explicit numbers different from their position (3 numbering variants).",
+ "C20": "Session 3: sprite-and-script names with different numbers must be rejected; TH06 call opcode re-declared by the user mapfile with the sub id in the 2nd or 3rd slot (call sugar and raw spelling).",
  "C19": "Session 3: the --output-debug-info file is compared per seed, every bundled file is decompiled under every seed, inputs for unknown / similar enum names and for conflicting call signatures in old ECL.",
 }
 for k, v in ADD.items(): checks[k]["text"] += " " + v
